@@ -24,6 +24,11 @@ Index and slice assignment on URL lists (`lst[i] = u`, `lst[a:b:st] = us`, `lst[
 `t.webseeds = t.webseeds`; /repo e62ce6d) and `replace()` on a held Trackers object that raises
 (/repo 41bec34) are judged like every other operation (I vs S, I vs M); only slice assignment on the
 tiers container (`t.trackers[a:b] = …`, open finding D16b) is outside the theorem hypothesis.
+
+`reverse()` (/repo 3d3793a) is an operation of the alphabet on all four kinds of list; with `pop`, `remove`,
+`+=`, `append`, `extend` every mutating MutableSequence mixin method is covered.  `reverse_expected` states
+C16_reverse / C16_tiers_reverse on the real code (no error; a URL list reads back reversed; the tiers
+container reads back in reversed tier order since /repo f86a28a).
 """
 import itertools
 import json
@@ -33,7 +38,7 @@ from harness import common
 
 RULE = ('histories = start state + operations on trackers / a tier / webseeds / httpseeds, each through a fresh getter '
         'call or on a list object obtained once and held (get) '
-        '(set, append, insert, extend, +=, delete, slice delete, clear, remove, pop, replace, index '
+        '(set, append, insert, extend, +=, delete, slice delete, clear, remove, pop, replace, reverse, index '
         'and slice assignment — plain and extended slices, the list assigned to itself) over the URL alphabet {a, b, c, d, "http://a b", "http://a+b", invalid, '
         'blank, leading-space (valid as given, invalid as stored)}: exhaustive short histories + an exhaustive grid of index / slice assignments on lists of 0–3 URLs and on tiers + random histories up to 8 operations '
         'from the empty torrent and from non-trivial start states; every prefix is one evaluation; '
@@ -102,6 +107,8 @@ def _apply_u(lst, op):
     elif n == 'setslice':
         # `lst[a:b:st] = us`; 'self': the list object itself is the value (`lst[:] = lst`)
         lst[slice(op['a'], op['b'], op.get('st'))] = lst if op.get('self') else list(op['us'])
+    elif n == 'reverse':
+        lst.reverse()
     else:
         raise RuntimeError(f'harness: unknown op {n}')
 
@@ -131,6 +138,8 @@ def _apply_t(tr, op):
         tr[op['i']] = op['v']
     elif n == 'setslice':
         tr[op['a']:op['b']] = list(op['vs'])
+    elif n == 'reverse':
+        tr.reverse()
     else:
         raise RuntimeError(f'harness: unknown op {n}')
 
@@ -454,7 +463,7 @@ def held_reasons(mi, rb, held):
 def stored_urls(op):
     """URLs the operation tries to store (a blank string given as a TIER is the empty tier)."""
     n, on = op['op'], op['on']
-    if n in ('delete', 'delslice', 'clear', 'remove', 'pop'):
+    if n in ('delete', 'delslice', 'clear', 'remove', 'pop', 'reverse'):
         return []
     if on in ('ws', 'hs', 'tier'):
         if n == 'set':
@@ -496,6 +505,26 @@ def reject_expected(op, before_rb, is_url):
         if not (-n <= op['ti'] < n):
             return False
     return True
+
+
+def reverse_expected(mop, before_rb):
+    """What `reverse()` must do (counterpart of C16_reverse / C16_reverse_tier / C16_tiers_reverse;
+    list.reverse() has no documented error): (allowed outcomes, expected read-back of the edited list
+    or None = not judged).  On a URL list (webseeds, httpseeds, a tier) the list read back afterwards
+    is exactly the reversed list; on the tiers container (/repo f86a28a) the tiers read back are
+    exactly the old tiers in reversed order (each tier unchanged)."""
+    if before_rb is None:
+        return ('ok', 'url'), None                 # the getter itself fails (state broken before)
+    on = mop['on']
+    if on in ('ws', 'hs'):
+        return ('ok',), {on: list(reversed(before_rb[on]))}
+    if on == 'tier':
+        tiers, n = before_rb['tr'], len(before_rb['tr'])
+        if not (-n <= mop['ti'] < n):
+            return ('index',), {'tr': tiers}
+        k = mop['ti'] % n
+        return ('ok',), {'tr': tiers[:k] + [list(reversed(tiers[k]))] + tiers[k + 1:]}
+    return ('ok',), {'tr': list(reversed(before_rb['tr']))}
 
 
 # ----------------------------------------------------------------------------------------------
@@ -564,9 +593,11 @@ def single_ops_full():
                 _u(on, 'setslice', a=None, b=None, st=-1, us=[B, A]),          #   depending on the length
                 _u(on, 'setslice', a=None, b=None, st=0, us=[A]),
                 _u(on, 'setslice', a=0, b=1, us=[]),
-                _u(on, 'set', self=True)]                                      # t.webseeds = t.webseeds
+                _u(on, 'set', self=True),                                      # t.webseeds = t.webseeds
+                _u(on, 'reverse')]
     ops += [_u('hs', 'append', u=A), _u('hs', 'append', u=BAD), _u('hs', 'set', v=[A, B]),
-            _u('hs', 'clear'), _u('hs', 'setitem', i=0, u=A), _u('hs', 'setslice', a=None, b=None, self=True)]
+            _u('hs', 'clear'), _u('hs', 'setitem', i=0, u=A), _u('hs', 'setslice', a=None, b=None, self=True),
+            _u('hs', 'reverse')]
     ops += [_u('tr', 'set', v=v) for v in (None, A, [A, B], [[A, B], [SP]], [[A], [BAD]], BAD, [],
                                            [[A], [A, B]], {'other': 1}, '', [''])]
     ops += [_u('tr', 'append', v=v) for v in (A, [A, B], [B, PL], [BAD], '', [C, BAD], BAD3, [C, LEAD])]
@@ -580,7 +611,8 @@ def single_ops_full():
             _u('tr', 'setitem', i=5, v=[BAD]), _u('tr', 'setitem', i=5, v=[C])]
     ops += [_u('tr', 'setslice', a=0, b=1, vs=[[A]]), _u('tr', 'setslice', a=0, b=0, vs=[[A, B]])]
     ops += [_u('tr', 'set', self=True)]                                        # t.trackers = t.trackers
-    for ti, names in ((0, None), (1, ('append-b', 'delete', 'clear', 'setitem-a', 'extend', 'setitem-b', 'setslice-empty')),
+    ops += [_u('tr', 'reverse')]
+    for ti, names in ((0, None), (1, ('append-b', 'delete', 'clear', 'setitem-a', 'extend', 'setitem-b', 'setslice-empty', 'reverse')),
                       (-1, ('append-a', 'pop', 'append-bad', 'setslice-self'))):
         cand = {
             'append-a': _u('tier', 'append', ti=ti, u=A), 'append-b': _u('tier', 'append', ti=ti, u=B),
@@ -602,6 +634,7 @@ def single_ops_full():
             'setslice-other': _u('tier', 'setslice', ti=ti, a=None, b=None, us=[C, B]),   # only URLs of other tiers?
             'setslice-ext': _u('tier', 'setslice', ti=ti, a=None, b=None, st=-1, us=[C, A]),
             'setslice-bad': _u('tier', 'setslice', ti=ti, a=0, b=0, us=[C, BAD]),
+            'reverse': _u('tier', 'reverse', ti=ti),
         }
         ops += [v for k, v in cand.items() if names is None or k in names]
     return ops
@@ -618,6 +651,7 @@ def single_ops_small():
         _u('tr', 'delete', i=0), _u('tr', 'setitem', i=0, v=[B]), _u('tr', 'setslice', a=0, b=1, vs=[[A]]),
         _u('tier', 'append', ti=0, u=B), _u('tier', 'append', ti=-1, u=PL), _u('tier', 'delete', ti=0, i=0),
         _u('tier', 'clear', ti=0), _u('tier', 'setitem', ti=0, i=0, u=A), _u('tier', 'insert', ti=0, i=0, u=C),
+        _u('tier', 'reverse', ti=0), _u('ws', 'reverse'),
     ]
 
 
@@ -659,7 +693,7 @@ def rnd_uop(rng, on, allow_set=True, **kw):
     # (index and slice assignment on a URL list are ordinary operations since /repo e62ce6d;
     #  `allow_set` only governs slice assignment on the tiers container, see rnd_op)
     names = ['insert', 'append', 'append', 'extend', 'iadd', 'delete', 'delslice', 'clear', 'remove',
-             'pop', 'replace', 'setitem', 'setslice', 'setslice']
+             'pop', 'replace', 'setitem', 'setslice', 'setslice', 'reverse']
     n = rng.choice(names)
     if n in ('insert', 'setitem'):
         return _u(on, n, i=rnd_idx(rng), u=rnd_url(rng), **kw)
@@ -695,7 +729,7 @@ def rnd_op(rng, allow_set=True):
     if on == 'tier':
         return rnd_uop(rng, 'tier', allow_set, ti=rng.choice([0, 0, 0, 1, 1, -1, 2, -3]))
     names = ['set', 'set', 'insert', 'append', 'append', 'extend', 'iadd', 'delete', 'delslice', 'clear',
-             'remove', 'pop', 'replace', 'setitem']
+             'remove', 'pop', 'replace', 'setitem', 'reverse']
     if allow_set:
         names += ['setslice']
     n = rng.choice(names)
@@ -756,7 +790,8 @@ def held_ops_urls(on, **kw):
             o('setitem', i=-1, u=A), o('setitem', i=1, u=B), o('setitem', i=5, u=C),
             o('setslice', a=None, b=None, self=True), o('setslice', a=None, b=None, us=[]),
             o('setslice', a=0, b=1, us=[B, B, A]), o('setslice', a=1, b=None, us=[C, B]),
-            o('setslice', a=None, b=None, st=-1, us=[B, A]), o('setslice', a=None, b=None, st=2, us=[C, C])]
+            o('setslice', a=None, b=None, st=-1, us=[B, A]), o('setslice', a=None, b=None, st=2, us=[C, C]),
+            o('reverse')]
 
 
 def held_ops_tiers():
@@ -770,7 +805,8 @@ def held_ops_tiers():
            o('replace', vs=[[C, LEAD]]),
            o('remove', us=[A]), o('remove', us=[C]), o('pop', i=None), o('pop', i=7), o('delete', i=0), o('delete', i=5),
            o('delslice', a=0, b=1), o('clear'), o('setitem', i=0, v=[C]), o('setitem', i=0, v=[BAD]),
-           o('replace', vs=[[A, B], [BAD2]]), o('replace', self=True), o('setitem', i=-1, v=[A, C]), o('setitem', i=5, v=[C])]
+           o('replace', vs=[[A, B], [BAD2]]), o('replace', self=True), o('setitem', i=-1, v=[A, C]), o('setitem', i=5, v=[C]),
+           o('reverse')]
     for ti in (0, 1):
         ops += [_u('tier', 'append', ti=ti, u=C), _u('tier', 'extend', ti=ti, us=[C, BAD]),
                 _u('tier', 'iadd', ti=ti, us=[C, BAD]), _u('tier', 'iadd', ti=ti, us=[C]),
@@ -778,7 +814,7 @@ def held_ops_tiers():
                 _u('tier', 'setitem', ti=ti, i=0, u=C), _u('tier', 'setitem', ti=ti, i=0, u=B),
                 _u('tier', 'setslice', ti=ti, a=None, b=None, us=[]),
                 _u('tier', 'setslice', ti=ti, a=0, b=1, us=[C, C, SP]),
-                _u('tier', 'setslice', ti=ti, a=0, b=None, us=[A, BAD])]
+                _u('tier', 'setslice', ti=ti, a=0, b=None, us=[A, BAD]), _u('tier', 'reverse', ti=ti)]
     return ops
 
 
@@ -818,9 +854,10 @@ def gen_held_exhaustive(ctx):
                     _u('tr', 'replace', vs=[[BAD]]), _u('tier', 'setslice', ti=0, a=0, b=1, us=[C, BAD]),
                     _u('tier', 'setitem', ti=0, i=9, u=SP)]}
     tails = {'ws': [_u('ws', 'append', u=C), _u('ws', 'insert', i=0, u=SP), _u('ws', 'remove', u=A), _u('ws', 'clear'),
-                    _u('ws', 'extend', us=[B, C]), _u('ws', 'delete', i=0)],
+                    _u('ws', 'extend', us=[B, C]), _u('ws', 'delete', i=0), _u('ws', 'reverse')],
              'tr': [_u('tr', 'append', v=[C]), _u('tier', 'append', ti=0, u=SP), _u('tier', 'clear', ti=0), _u('tr', 'clear'),
-                    _u('tr', 'delete', i=-1), _u('tier', 'remove', ti=0, u=A), _u('tier', 'setitem', ti=0, i=0, u=C)]}
+                    _u('tr', 'delete', i=-1), _u('tier', 'remove', ti=0, u=A), _u('tier', 'setitem', ti=0, i=0, u=C),
+                    _u('tier', 'reverse', ti=0), _u('tr', 'reverse')]}
     for g in ('ws', 'tr'):
         for f in fails[g]:
             for tail in itertools.product(tails[g], repeat=3 if ctx.thorough else 2):
@@ -865,6 +902,49 @@ def gen_assign_grid(ctx):
     return cases
 
 
+def gen_reverse_family(ctx):
+    """`reverse()` exhaustively over small shapes: URL lists of 0-5 URLs (webseeds through a fresh getter
+    and held, httpseeds held, a tier through a fresh getter / the held Trackers object / a tier handle)
+    and tiers containers of 0-4 tiers (fresh and held; every tier index, existing or not), each followed by
+    every operation of a small follow-up set (reverse again, an edit that depends on the order)"""
+    cases = []
+    def add(start, ops):
+        cases.append({'start': start, 'ops': ops, 'kind': 'reverse-exh'})
+    pool = [A, B, C, D, PL]
+    follow_u = lambda on, **kw: [None, _u(on, 'reverse', **kw), _u(on, 'append', u=SP, **kw), _u(on, 'pop', i=None, **kw),   # noqa
+                                 _u(on, 'insert', i=0, u=A, **kw), _u(on, 'setitem', i=0, u=D, **kw), _u(on, 'remove', u=A, **kw),
+                                 _u(on, 'iadd', us=[SP, A], **kw), _u(on, 'setslice', a=None, b=None, st=-1, self=True, **kw)]
+    for n in range(0, 6):
+        L = pool[:n]
+        for on in ('ws', 'hs'):
+            for held in (False, True):
+                if on == 'hs' and not (held or ctx.thorough):
+                    continue
+                pre = [_u(on, 'set', v=L)] + ([_get(on)] if held else [])
+                for f in follow_u(on):
+                    add('empty', pre + [_u(on, 'reverse')] + ([f] if f else []))
+                    if f and f['op'] != 'reverse':
+                        add('empty', pre + [f, _u(on, 'reverse')])
+    shapes = [[], [[A]], [[A], [B]], [[A, B], [C]], [[A, B, C], [D], [PL]], [[A], [B], [C], [D]], [[A, B, C, D, PL]]]
+    follow_t = [None, _u('tr', 'reverse'), _u('tier', 'reverse', ti=0), _u('tier', 'reverse', ti=-1), _u('tr', 'append', v=[SP]),
+                _u('tr', 'pop', i=None), _u('tr', 'remove', us=[A]), _u('tr', 'iadd', vs=[[SP], [A]]), _u('tr', 'insert', i=0, v=[SP, A]),
+                _u('tr', 'setitem', i=0, v=[SP]), _u('tr', 'delete', i=0)]
+    for T in shapes:
+        for held in (False, True):
+            pre = [_u('tr', 'set', v=T)] + ([_get('tr')] if held else [])
+            for f in follow_t:
+                add('empty', pre + [_u('tr', 'reverse')] + ([f] if f else []))
+                if f and f['op'] != 'reverse':
+                    add('empty', pre + [f, _u('tr', 'reverse')])
+            for ti in range(-len(T) - 1, len(T) + 1):
+                for f in follow_t:
+                    add('empty', pre + [_u('tier', 'reverse', ti=ti)] + ([f] if f else []))
+        for ti in range(len(T)):                      # through a tier handle
+            for f in follow_u('tier', k=0):
+                add('empty', [_u('tr', 'set', v=T), _get('tier', ti=ti, k=0), _u('tier', 'reverse', k=0)] + ([f] if f else []))
+    return cases
+
+
 def rnd_held_history(rng, allow_set):
     """random history in which every list is edited through at most one object at a time: after a
     `get` all operations on that list go to the held object until the list is assigned or obtained
@@ -906,7 +986,7 @@ def rnd_held_history(rng, allow_set):
 
 def gen_held_cases(ctx, scale=1.0):
     rng = ctx.rng
-    cases = gen_held_exhaustive(ctx) + gen_assign_grid(ctx)
+    cases = gen_held_exhaustive(ctx) + gen_assign_grid(ctx) + gen_reverse_family(ctx)
     for _ in range(int(ctx.n(2500, 120000) * scale)):
         cases.append({'start': rng.choice(['empty', 'full', 'full', 'single']),
                       'ops': rnd_held_history(rng, allow_set=False), 'kind': 'held-rnd-clean'})
@@ -1106,6 +1186,16 @@ def _classify(ctx, c, steps, is_url, r):
                               finding_matchers=MATCHERS)
                 return 'violation'
             continue
+        if mop['op'] == 'reverse':
+            outs, want = reverse_expected(mop, before_rb)
+            got = None if want is None or s['rb'] is None else {x: s['rb'][x] for x in want}
+            if s['out'] not in outs or (want is not None and got != want):
+                obs.update(kind='reverse', before_rb=before_rb)
+                ctx.violation(f'operation {k} ({op["on"]}.reverse{" on a held list object" if via == "held" else ""}): outcome {s["out"]}'
+                              + ('' if got == want else ', the list read back is not the reversed list'),
+                              case, {'out': list(outs), 'rb': want, 'model_mi': m['mi'], 'model_out': m['out']}, obs,
+                              finding_matchers=MATCHERS)
+                return 'violation'
         if not legacy and reject_expected(mop, before_rb, is_url):
             atomic = mop['op'] not in ('extend', 'iadd')
             if s['out'] != 'url' or (atomic and s['mi'] != before_mi):
